@@ -53,6 +53,11 @@ var c20Kinds = []c20Kind{
 	// two files with the same base name in different directories
 	{Name: "dir1-values", Arg: "d1/v.yaml", Resolves: true, Format: "yaml", Want: `[{"from":"d1"}]`},
 	{Name: "dir2-values", Arg: "d2/v.yaml", Resolves: true, Format: "yaml", Want: `[{"from":"d2"}]`},
+	// names holding glob metacharacters, and a symlink to a layer (by its real and by a virtual name)
+	{Name: "bracket-name", Arg: "conf[1].yaml", Resolves: true, Format: "yaml", Want: `[{"br":1}]`},
+	{Name: "star-name", Arg: "st*r.yaml", Resolves: true, Format: "yaml", Want: `[{"st":1}]`},
+	{Name: "symlink-to-layer", Arg: "link.yaml", Resolves: true, Format: "yaml", Want: `[{"l":[1,2],"x":1,"y":2}]`},
+	{Name: "symlink-to-layer-virtual", Arg: "link.json", Resolves: true, Format: "json", Want: `[{"l":[1,2],"x":1,"y":2}]`},
 }
 
 func c20Setup(dir string) error {
@@ -72,7 +77,10 @@ func c20Setup(dir string) error {
 		"broken.yaml":       "a: [\n",
 		"d1/v.yaml":         "from: d1\n",
 		"d2/v.yaml":         "from: d2\n",
+		"conf[1].yaml":      "br: 1\n",
+		"st*r.yaml":         "st: 1\n",
 	}
+	os.Symlink("a.b.yaml", filepath.Join(dir, "link.yaml"))
 	for n, c := range files {
 		os.MkdirAll(filepath.Dir(filepath.Join(dir, n)), 0o755)
 		if err := os.WriteFile(filepath.Join(dir, n), []byte(c), 0o644); err != nil {
